@@ -58,6 +58,7 @@ type c12Case struct {
 	inlined *yang.ModSet // hand-written inline definition (fixed cases); nil: use the source-level expander
 	invalidRefine  string          // the set has a refine that must be refused (what is wrong with it)
 	crossClash     bool            // the clash is between nodes of two modules (namespaces differ)
+	expectWhens    map[string][]string // fixed cases: data path -> the when expressions the compiled node must carry (all run on the parent)
 	augmentedBy    map[string]string // fixed cases: nodes that a module-level augment introduces, and the module that does
 	inheritedWhens map[string]bool // fixed cases: the when expressions that stand on a uses / augment in the source
 }
@@ -130,7 +131,7 @@ func c12Gen(seed int64, idx int) c12Case {
 			c12Shuffle(r, m, true)
 		}
 	case 8:
-		if (idx/10)%6 == 4 {
+		if (idx/10)%7 == 4 {
 			// augments whose target is a choice and that add cases in short form (a data node directly under
 			// the augment), at module level and inside a uses: each added node is a case of its own
 			head := func() *yang.Stmt {
@@ -158,7 +159,7 @@ func c12Gen(seed int64, idx int) c12Case {
 			c.inlined = &yang.ModSet{Mods: []*yang.Stmt{inl}}
 			return c
 		}
-		if (idx/10)%6 == 5 {
+		if (idx/10)%7 == 5 {
 			// a second module augments a choice with nodes in short form: each stands in a case of its own, and that
 			// case is as much a node of the augmenting module as one written out with the case keyword
 			str := func(n string) *yang.Stmt { return yang.S("leaf", n, yang.S("type", "string")) }
@@ -184,7 +185,28 @@ func c12Gen(seed int64, idx int) c12Case {
 			c.augmentedBy = map[string]string{"sh": "fx-cb", "shc": "fx-cb", "shl": "fx-cb", "late": "fx-cb", "l1": "fx-cb", "y": "fx-cb"}
 			return c
 		}
-		if (idx/10)%6 == 3 {
+		if (idx/10)%7 == 6 {
+			// a when on a uses whose grouping uses another grouping with a when of its own (and the same with an augment
+			// in between): a node of the inner grouping is there only if both hold.  No single module text can say that
+			// with when statements (a node takes one), so the expectation is stated on the compiled node.
+			str := func(n string) *yang.Stmt { return yang.S("leaf", n, yang.S("type", "string")) }
+			src := yang.S("module", "fx-ww", yang.S("namespace", "urn:verif:fx-ww"), yang.S("prefix", "ww"),
+				yang.S("container", "top", str("sel"), str("selb"), yang.S("uses", "outer", yang.S("when", "sel = 'a'"))),
+				yang.S("grouping", "outer", yang.S("uses", "inner", yang.S("when", "selb = 'b'")), str("o1")),
+				yang.S("grouping", "inner", str("i1"), yang.S("container", "ic", str("deep"))),
+				yang.S("container", "top2", str("sel"), str("selb")),
+				yang.S("augment", "/ww:top2", yang.S("when", "sel = 'x'"), yang.S("uses", "inner", yang.S("when", "selb = 'y'"))))
+			c.ms = &yang.ModSet{Mods: []*yang.Stmt{src}}
+			c.expectWhens = map[string][]string{
+				"top/i1": {"sel = 'a'", "selb = 'b'"}, "top/ic": {"sel = 'a'", "selb = 'b'"}, "top/o1": {"sel = 'a'"}, "top/ic/deep": {},
+				"top2/i1": {"sel = 'x'", "selb = 'y'"}, "top2/ic": {"sel = 'x'", "selb = 'y'"},
+			}
+			if (idx/70)%2 == 1 {
+				c12Shuffle(r, src, true)
+			}
+			return c
+		}
+		if (idx/10)%7 == 3 {
 			// context node of a when written on a uses, and on an augment inside that uses whose body
 			// holds a further uses: every introduced node carries the when, to be run on its parent
 			head := func() *yang.Stmt {
@@ -208,7 +230,7 @@ func c12Gen(seed int64, idx int) c12Case {
 			c.inheritedWhens = map[string]bool{"sel = 'a'": true, "sel2 = 'b'": true}
 			return c
 		}
-		if (idx/10)%6 == 2 {
+		if (idx/10)%7 == 2 {
 			// two different groupings named x in disjoint scopes, one reached from the other: x (in a1) uses y,
 			// y contains its own x and uses it.  No grouping refers to itself.
 			head := func() *yang.Stmt {
@@ -249,7 +271,7 @@ func c12Gen(seed int64, idx int) c12Case {
 			yang.S("typedef", "x", yang.S("type", "string", yang.S("length", "1..9"))),
 			yang.S("grouping", "h", yang.S("leaf", "h-of-lib", yang.S("type", "string"))))
 		c.inlined = &yang.ModSet{Mods: []*yang.Stmt{inl, libInl}}
-		if (idx/10)%6 == 1 {
+		if (idx/10)%7 == 1 {
 			c12Shuffle(r, user, true)
 		}
 		return c
@@ -425,6 +447,44 @@ func (p *c12) Run(tier string, seed int64, idx int) core.CaseResult {
 				cls += "/choice-and-data-node"
 			}
 			res.Fail(cls, input, "a name clash among the siblings introduced by uses/augment compiled")
+		}
+		return res
+	}
+	if c.expectWhens != nil {
+		res.Ev("fixed_sets_with_whens_from_two_levels", 1)
+		res.Key(input)
+		if !fr.Accepted() {
+			res.Fail("C12/valid-set-rejected", input, fr.Err)
+			return res
+		}
+		for path, want := range c.expectWhens {
+			var node schema.Node = fr.MS
+			pan, msg, _ := core.Guard(func() {
+				for _, st := range strings.Split(path, "/") {
+					node = node.Child(st)
+				}
+				_ = node.Name()
+			})
+			if pan {
+				res.Fail("C12/node-missing", input, path+": "+msg)
+				continue
+			}
+			var got []string
+			allParent := true
+			for _, w := range node.Whens() {
+				if w.Mach != nil {
+					got = append(got, w.Mach.GetExpr())
+				}
+				allParent = allParent && w.RunAsParent
+			}
+			sort.Strings(got)
+			w2 := append([]string{}, want...)
+			sort.Strings(w2)
+			if strings.Join(got, " | ") != strings.Join(w2, " | ") {
+				res.Fail("C12/whens-handed-down-differ", input, fmt.Sprintf("node %s: when conditions written on the uses / augment statements that introduce it: %q, the compiled node has %q", path, w2, got))
+			} else if !allParent {
+				res.Fail("C12/whens-handed-down-differ", input, fmt.Sprintf("node %s: a when handed down by a uses / augment is not run on the parent", path))
+			}
 		}
 		return res
 	}
